@@ -6,7 +6,7 @@ import fcntl, hashlib, json, os, re, shutil, subprocess, sys, tempfile, time
 ROOT = os.path.dirname(os.path.dirname(os.path.abspath(__file__)))
 CACHE = os.path.join(ROOT, '.cache')
 LEAN = os.path.join(ROOT, 'lean')
-REPO = '/repo'
+REPO = os.environ.get('VERIF_REPO', '/repo')      # the registered checks always use /repo; tools/seedeval_snap.py points a snapshot at a scratch copy
 DRIVER = os.path.join(LEAN, '.lake', 'build', 'bin', 'fpdriver')
 BIN = os.path.join(CACHE, 'target', 'release', 'fastpasta')
 HARNESS = os.path.join(CACHE, 'target-harness', 'release', 'fp_harness')
